@@ -82,4 +82,5 @@ func ZzC19ServerUDPFilter() {
 	}
 	zzCover("delivered", called == 1)
 	zzCover("ignored", called == 0)
+	zzAssertMustFail(called == 1, "twin: every datagram is delivered")
 }
